@@ -70,6 +70,154 @@ def afterTrial (n : Nat) (ts : List GTrial) (cur : Option Nat) : Bool :=
     | some g => g == target.headD 0
   else false
 
+/-! ## what the sampler reads from / writes to the storage (`search_space` / `grid_id` system attributes)
+
+The definitions above see a stored trial through `GTrial.gridId` ("has a `grid_id` *and* its
+`search_space` attribute equals the sampler's").  The definitions below spell that out: grid values,
+`_grid_value_equal`, `_same_search_space`, the two attributes of a stored trial, the `KeyError` of
+`t.system_attrs["search_space"]`, and the ORDER of the two attribute writes of `before_trial`.
+(`Props/C14Gen.lean` proves the methods generated from the source equal to these.) -/
+
+/-- A grid value (`GridValueType = Union[str, float, int, bool, None]`).  A NaN carries the identity
+of its Python object (`nan 0` and `nan 1` are two NaN objects: `is` tells them apart, `==` is false for
+both); a value read back from a serialising storage is a new object. -/
+inductive GVal where
+  | none | bool (b : Bool) | int (i : Int) | float (q : Rat) | inf (neg : Bool) | nan (obj : Nat)
+  | str (s : String)
+deriving DecidableEq, Repr, Inhabited
+
+/-- the number a value denotes for `==` (`True == 1 == 1.0`) -/
+def GVal.num? : GVal → Option Rat
+  | .bool b => some (if b then 1 else 0)
+  | .int i => some (i : Rat)
+  | .float q => some q
+  | _ => Option.none
+
+/-- Python's `a == b` on grid values -/
+def GVal.pyEq (a b : GVal) : Bool :=
+  match a.num?, b.num? with
+  | some x, some y => x == y
+  | _, _ =>
+    match a, b with
+    | .none, .none => true
+    | .inf x, .inf y => x == y
+    | .str x, .str y => x == y
+    | _, _ => false
+
+/-- `isinstance(v, Real) and np.isnan(float(v))` -/
+def GVal.isNaN : GVal → Bool
+  | .nan _ => true
+  | _ => false
+
+/-- `GridSampler._grid_value_equal` -/
+def gridValueEqual (a b : GVal) : Bool := a.pyEq b || (a.isNaN && b.isNaN)
+
+/-- `search_space`: parameter name ↦ list of values (a dict: one entry per key) -/
+abbrev Space := List (String × List GVal)
+
+def sameKeySets (a b : List String) : Bool := a.all (fun x => b.contains x) && b.all (fun x => a.contains x)
+
+/-- same length and `_grid_value_equal(theirs[i], mine[i])` for every `i` -/
+def valuesEqual : List GVal → List GVal → Bool
+  | [], [] => true
+  | a :: as, b :: bs => gridValueEqual a b && valuesEqual as bs
+  | _, _ => false
+
+/-- `GridSampler._same_search_space(search_space)` with `self._search_space = mine` (both sides are looked
+up by key, as the source does) -/
+def entryEqual (mine other : Space) (k : String) : Bool :=
+  match AList.get? other k, AList.get? mine k with
+  | some vs, some ws => valuesEqual vs ws
+  | _, _ => false
+
+def sameSearchSpace (mine other : Space) : Bool :=
+  sameKeySets (other.map (·.1)) (mine.map (·.1)) && other.all (fun kv => entryEqual mine other kv.1)
+
+/-- A stored trial with the attributes the sampler reads. -/
+structure RTrial where
+  /-- `system_attrs.get("grid_id")` -/
+  gridId : Option Nat
+  /-- `system_attrs.get("search_space")` -/
+  space : Option Space
+  /-- `"fixed_params" in system_attrs` -/
+  fixed : Bool
+  state : TS
+deriving DecidableEq, Repr
+
+/-- how `_get_unvisited_grid_ids` sees a stored trial; `none` = `KeyError('search_space')` (a trial
+with a grid id and no search space) -/
+def RTrial.view (mine : Space) (t : RTrial) : Option GTrial :=
+  match t.gridId with
+  | Option.none => some ⟨Option.none, t.state⟩
+  | some g =>
+    match t.space with
+    | Option.none => Option.none
+    | some sp => some ⟨if sameSearchSpace mine sp then some g else Option.none, t.state⟩
+
+def viewAll (mine : Space) : List RTrial → Option (List GTrial)
+  | [] => some []
+  | t :: rest =>
+    match t.view mine with
+    | Option.none => Option.none
+    | some g => (viewAll mine rest).map (g :: ·)
+
+/-- `_get_unvisited_grid_ids`; `none` = KeyError -/
+def unvisitedR (mine : Space) (n : Nat) (ts : List RTrial) : Option (List Nat) :=
+  (viewAll mine ts).map (unvisited n)
+
+/-- one `study._storage.set_trial_system_attr(trial._trial_id, key, value)` of `before_trial` -/
+inductive Write where
+  | searchSpace            -- key "search_space", value `self._search_space`
+  | gridId (g : Nat)       -- key "grid_id"
+deriving DecidableEq, Repr
+
+/-- `before_trial` for the trial `cur` (its attributes as in the frozen trial handed to the hook):
+the attribute writes IN ORDER and whether the RNG was used; `none` = KeyError. -/
+def beforeTrialR (mine : Space) (n : Nat) (ts : List RTrial) (cur : RTrial) (number : Nat)
+    (proposal : Nat) : Option (List Write × Bool) :=
+  if cur.gridId.isSome || cur.fixed then some ([], false)
+  else if number < n then some ([.searchSpace, .gridId number], false)
+  else
+    match unvisitedR mine n ts with
+    | Option.none => Option.none
+    | some target =>
+      let target := if target.length = 0 then List.range n else target
+      some ([.searchSpace, .gridId (pick target proposal)], true)
+
+/-- `after_trial`: `cur` = `get_trial_system_attrs(trial._trial_id).get("grid_id")`; `some true` =
+`study.stop()`; `none` = KeyError -/
+def afterTrialR (mine : Space) (n : Nat) (ts : List RTrial) (cur : Option Nat) : Option Bool :=
+  match unvisitedR mine n ts with
+  | Option.none => Option.none
+  | some target =>
+    if target.length = 0 then some true
+    else if target.length = 1 then
+      match cur with
+      | Option.none => some false
+      | some g => some (g == target.headD 0)
+    else some false
+
+/-- the stored form of an abstract trial under the sampler's own search space -/
+def GTrial.store (mine : Space) (t : GTrial) : RTrial :=
+  match t.gridId with
+  | Option.none => ⟨Option.none, Option.none, false, t.state⟩
+  | some g => ⟨some g, some mine, false, t.state⟩
+
+/-- a state is safe when every trial with a grid id also has a search space -/
+def attrsSafe (gridId : Bool) (space : Bool) : Bool := !gridId || space
+
+/-- the attribute state of a fresh trial after a sequence of writes: (has grid_id, has search_space) -/
+def afterWrites : List Write → Bool × Bool
+  | [] => (false, false)
+  | .searchSpace :: rest => ((afterWrites rest).1, true)
+  | .gridId _ :: rest => (true, (afterWrites rest).2)
+
+/-- every prefix of the write sequence (= every point at which the worker can die) leaves the trial
+in a state `_get_unvisited_grid_ids` can read -/
+def writesPrefixSafe (ws : List Write) : Bool :=
+  (List.range (ws.length + 1)).all (fun k =>
+    let s := afterWrites (ws.take k); attrsSafe s.1 s.2)
+
 /-- index of the first WAITING trial (`Study.ask` pops it before creating a new trial) -/
 def firstWaiting : List GTrial → Option Nat
   | [] => none
